@@ -637,3 +637,16 @@ package rtsp
 //@   ensures c.closed
 //@   ensures c.conn == nil && c.stream == nil
 //@   ensures ghostBool(old(c.conn), "closed")
+
+// ---- C19: which first bytes make a connection an RTSP connection ------------------------------------------------------------
+// RTSP and HTTP share the OPTIONS method: an OPTIONS request is RTSP exactly when its target is '*' followed by an RTSP
+// version, or an rtsp:// URL - so every prefix pattern of the RTSP matcher that starts with OPTIONS is one of these four
+// (a shorter pattern such as "OPTIONS * " would hand HTTP's server-wide "OPTIONS * HTTP/1.1" to the RTSP service)
+//@ import "github.com/cnotch/ipchub/network/socket/listener"
+//@ spec func optionsPattern(s string) bool = len(s) >= 7 && s[0] == 'O' && s[1] == 'P' && s[2] == 'T' && s[3] == 'I' && s[4] == 'O' && s[5] == 'N' && s[6] == 'S'
+//@ extern func listener.MatchPrefix(strs ...string) (m listener.Matcher)
+//@   requires forall(i, 0, len(strs), optionsPattern(strs[i]) ==> strs[i] == "OPTIONS * RTSP" || strs[i] == "OPTIONS * rtsp" || strs[i] == "OPTIONS rtsp://" || strs[i] == "OPTIONS RTSP://")
+//@   requires exists(i, 0, len(strs), strs[i] == "OPTIONS * RTSP") && exists(i, 0, len(strs), strs[i] == "OPTIONS rtsp://")
+//@   modifies
+//@ func MatchRTSP() (m listener.Matcher)
+//@   modifies
